@@ -177,3 +177,29 @@ Example strip_near_fan_d :
   strip_near_equal_d [(0, 0); (10, 0); (10, 10); (0, 10); (-0x1.999999999999ap-2, 0); (0, -0x1.999999999999ap-2); (0x1.999999999999ap-2, 0)]%float 0.25%float true
   = Ok [(0, 0); (10, 0); (10, 10); (0, 10)]%float.
 Proof. vm_compute. reflexivity. Qed.
+
+(* ------------------------------------------------------------------ defining equations of the PathD instantiations *)
+Lemma translate_path_d_spec p dx dy :
+  length (translate_path_d p dx dy) = length p /\
+  forall i, nth_error (translate_path_d p dx dy) i = option_map (fun q => (fst q + dx, snd q + dy)%float) (nth_error p i).
+Proof. split; [apply map_length|intros i; apply nth_error_map]. Qed.
+
+(* TrimCollinear(PathD, precision, open) = descale (TrimCollinear64 (round (path * scale))), never an error *)
+Lemma trim_collinear_d_spec (trim_total : forall p o, exists r, trim_collinear p o = Ok r) p scale o :
+  let p64 := map (fun q => (F2I64_round (fst q * scale), F2I64_round (snd q * scale))%float) p in
+  exists r64, trim_collinear p64 o = Ok r64 /\
+    trim_collinear_d p scale o = Ok (map (fun q => (Z2Ff (px q) * (1 / scale), Z2Ff (py q) * (1 / scale))%float) r64).
+Proof.
+  cbv zeta. destruct (trim_total (map (fun q => (F2I64_round (fst q * scale), F2I64_round (snd q * scale))%float) p) o) as [r Hr].
+  exists r. split; [exact Hr|]. unfold trim_collinear_d. rewrite Hr. reflexivity.
+Qed.
+
+Lemma ellipse_rect_i_spec l t r b steps si co :
+  ellipse_rect_i l t r b steps si co =
+  ellipse_i (Z.quot (l + r) 2, Z.quot (t + b) 2) (Z2Ff (r - l) * 0.5)%float (Z2Ff (b - t) * 0.5)%float steps si co.
+Proof. reflexivity. Qed.
+
+Lemma ellipse_rect_d_spec l t r b steps si co :
+  ellipse_rect_d l t r b steps si co =
+  ellipse_d ((l + r) / 2)%float ((t + b) / 2)%float ((r - l) * 0.5)%float ((b - t) * 0.5)%float steps si co.
+Proof. reflexivity. Qed.
